@@ -2197,7 +2197,8 @@ impl Scenario for PayloadCut {
          rows == the independent word table (every word once, in order, at its offset, with its bytes; no row made \
          of padding). (2) words planted as position markers: conforming multi-link streams (both formats, padding \
          0..15) in which data words at chosen indices get an invalid ID; `check sanity its` / `check all its` must \
-         report exactly those offsets (E991/E70) and nothing else. (3) excess-padding fault (16..40 bytes 0xFF; both data formats) on a \
+         report exactly those offsets (E991/E70) and nothing else - 1 planted word in 4 behind an RDH that is itself \
+         faulty (header size, priority bit, reserved bits: [E10] at the RDH, words unmoved). (3) excess-padding fault (16..40 bytes 0xFF; both data formats) on a \
          continuation page (mid-continuation) or on the last data page before a stop page, with recovery: exactly one \
          `Payload error following RDH` at that RDH, no message inside the skipped payload, and the next packet is \
          judged from the initial state (mid-continuation: no further error; before a stop page: the DDW0 is judged \
@@ -2264,6 +2265,16 @@ impl Scenario for PayloadCut {
                     let o = (base + p.word_offset(wi)) as u64;
                     if !markers.contains(&o) {
                         markers.push(o);
+                    }
+                    // 1 in 4 (never the packet that opens the stream): the RDH in front of the planted word is
+                    // itself faulty in a field that changes nothing about the packet - reported at the RDH, and
+                    // the planted word is still reported where it is
+                    if idx > 0 && rng.chance(1, 4) {
+                        match rng.below(3) {
+                            0 => p.rdh.header_size = *rng.pick(&[0u8, 0x10, 0x30, 0x3F, 0x41, 0x50, 0x80, 0xFF]),
+                            1 => p.rdh.priority = 1,
+                            _ => p.rdh.rdh0_reserved = 1 + rng.below(0xFFFF) as u16,
+                        }
                     }
                 }
                 let mode = if rng.chance(1, 2) { CHECK_MODES[1] } else { CHECK_MODES[3] };
